@@ -1,9 +1,12 @@
-(* Proofs about Model/AbsDest.v, part 1: association lists; one replay step on the
-   consumer's view simulates one HandleChange on the destination (so replaying the
-   notifications of ANY run of apply_all — complete or stopped by an error — rebuilds the
-   view of the destination); requests and notifications are functions of the change list. *)
+(* Proofs about Model/AbsDest.v, part 1: association lists; hard-link metadata ([link_stat]);
+   one replay step on the consumer's view simulates one HandleChange on the destination when
+   the change is honest (a hard-link entry carries the metadata of the inode it joins), so
+   replaying the notifications of ANY honest run of apply_all — complete or stopped by an
+   error — rebuilds the view of the destination; requests and notifications are functions of
+   the change list. *)
 From Coq Require Import List NArith Lia Bool.
-From FS Require Import Sx Model.Path Model.Stat Model.Diff Model.AbsDest Proofs.Lex Proofs.PathP Proofs.DiffP.
+From FS Require Import Sx Model.Path Model.Stat Model.Diff Model.AbsDest Proofs.Lex Proofs.PathP Proofs.DiffP
+  Proofs.DiffSpecP.
 Import ListNotations.
 Open Scope N_scope.
 Open Scope bool_scope.
@@ -70,6 +73,57 @@ Proof.
   - apply above_lt in H. rewrite compare_path_opp, H. discriminate.
 Qed.
 
+(* ---------------------------------------------------------------- hard-link metadata *)
+Lemma ino_meta_eqb_iff t s : ino_meta_eqb t s = true <-> ino_meta_eq t s.
+Proof. unfold ino_meta_eqb, ino_meta_eq. rewrite !andb_true_iff, !N.eqb_eq, xattrs_eqb_eq. tauto. Qed.
+
+Lemma ino_meta_eq_refl s : ino_meta_eq s s.
+Proof. unfold ino_meta_eq. tauto. Qed.
+
+Lemma ino_meta_eq_sym t s : ino_meta_eq t s -> ino_meta_eq s t.
+Proof. unfold ino_meta_eq. intros (H1 & H2 & H3 & H4 & H5 & H6 & H7 & H8). repeat split; congruence. Qed.
+
+Lemma ino_meta_eq_trans a b c : ino_meta_eq a b -> ino_meta_eq b c -> ino_meta_eq a c.
+Proof.
+  unfold ino_meta_eq. intros (H1 & H2 & H3 & H4 & H5 & H6 & H7 & H8) (K1 & K2 & K3 & K4 & K5 & K6 & K7 & K8).
+  repeat split; congruence.
+Qed.
+
+Lemma is_reg_mode_eq a b : st_mode a = st_mode b -> is_reg a = is_reg b.
+Proof. intros E. unfold is_reg, st_is_dir, is_special. rewrite E. reflexivity. Qed.
+
+(* an honest announcement is what the new name shows *)
+Lemma link_stat_honest t s : ino_meta_eq t s -> link_stat t s = s.
+Proof.
+  intros (H1 & H2 & H3 & H4 & H5 & H6 & H7 & H8). unfold link_stat. destruct (is_reg t); [|reflexivity].
+  destruct s; simpl in *. subst. reflexivity.
+Qed.
+
+Lemma link_stat_path t s : st_path (link_stat t s) = st_path s.
+Proof. unfold link_stat. destruct (is_reg t); reflexivity. Qed.
+
+Lemma link_stat_linkname t s : st_linkname (link_stat t s) = st_linkname s.
+Proof. unfold link_stat. destruct (is_reg t); reflexivity. Qed.
+
+(* the new name shows the metadata of the inode it joined *)
+Lemma link_stat_meta t s : is_reg t = true -> ino_meta_eq (link_stat t s) t.
+Proof. intros E. unfold link_stat. rewrite E. unfold ino_meta_eq. simpl. tauto. Qed.
+
+(* a new name is a hard-link entry again, never a directory *)
+Lemma link_stat_is_hardlink t s : is_hardlink s = true -> is_hardlink (link_stat t s) = true.
+Proof.
+  intros Hs. unfold link_stat. destruct (is_reg t) eqn:Et; [|exact Hs].
+  unfold is_hardlink in *. apply andb_true_iff in Hs. destruct Hs as [_ Hl].
+  apply andb_true_iff. split; [|exact Hl].
+  rewrite <- Et. apply is_reg_mode_eq. reflexivity.
+Qed.
+
+Lemma link_stat_not_dir t s : is_hardlink s = true -> st_is_dir (link_stat t s) = false.
+Proof.
+  intros Hs. apply (link_stat_is_hardlink t) in Hs. unfold is_hardlink, is_reg in Hs.
+  rewrite !andb_true_iff, !negb_true_iff in Hs. tauto.
+Qed.
+
 (* ---------------------------------------------------------------- replay simulates apply *)
 Section Sim.
 Variable src : bytes -> bytes.
@@ -106,14 +160,85 @@ Proof. rewrite !nview_is_map. apply aremove_if_map_val. Qed.
 Lemma nview_aset p e D : aset p (nval e) (nview D) = nview (aset p e D).
 Proof. rewrite !nview_is_map. apply (aset_map_val nval). Qed.
 
-Theorem replay_step_sim D next c D' next' :
-  apply_map src D next c = Some (D', next') -> replay_step (nview D) (notif_of c) = nview D'.
+(* the writer that records the stat AS SENT at a hard link: what apply_map does on honest
+   entries (proof device: one replay step simulates it unconditionally) *)
+Definition apply_map_sent (D : dmap) (next : N) (c : change) : option (dmap * N) :=
+  match c with
+  | (KDelete, p, _) => Some (aremove_if (at_or_below p) D, next)
+  | (_, _, None) => None
+  | (k, p, Some st) =>
+    let old := alookup p D in
+    match old, k with
+    | None, KModify => None
+    | _, _ =>
+      match old with
+      | Some o =>
+        if st_is_dir st && st_is_dir (de_stat o) then
+          Some (aset p {| de_stat := st; de_bytes := de_bytes o; de_ino := de_ino o |} D, next)
+        else
+          let D1 := if Bool.eqb (st_is_dir (de_stat o)) (st_is_dir st) then D
+                    else aremove_if (at_or_below p) D in
+          if is_hardlink st then
+            match alookup (st_linkname st) D with
+            | Some t => if st_is_dir (de_stat t) then None
+                        else Some (aset p {| de_stat := st; de_bytes := de_bytes t; de_ino := de_ino t |} D1, next)
+            | None => None
+            end
+          else Some (aset p {| de_stat := st; de_bytes := if wants_content st then src p else [];
+                               de_ino := next |} D1, next + 1)
+      | None =>
+          if is_hardlink st then
+            match alookup (st_linkname st) D with
+            | Some t => if st_is_dir (de_stat t) then None
+                        else Some (aset p {| de_stat := st; de_bytes := de_bytes t; de_ino := de_ino t |} D, next)
+            | None => None
+            end
+          else Some (aset p {| de_stat := st; de_bytes := if wants_content st then src p else [];
+                               de_ino := next |} D, next + 1)
+      end
+    end
+  end.
+
+Lemma honest_change_link D k p st t :
+  k <> KDelete -> honest_change D (k, p, Some st) = true -> is_hardlink st = true ->
+  alookup (st_linkname st) D = Some t -> link_stat (de_stat t) st = st.
+Proof.
+  intros Hk Hh Hl Ht. unfold honest_change, honest_change_by in Hh.
+  destruct k; [| |congruence]; rewrite Hl, Ht in Hh; apply stat_eqb_eq in Hh; exact Hh.
+Qed.
+
+Lemma apply_map_honest D next c :
+  honest_change D c = true -> apply_map src D next c = apply_map_sent D next c.
+Proof.
+  destruct c as [[k p] [st|]]; [|reflexivity]. intros Hh.
+  assert (Hl : k <> KDelete -> is_hardlink st = true -> forall t, alookup (st_linkname st) D = Some t ->
+               link_stat (de_stat t) st = st).
+  { intros Hk Hhl t Ht. eapply honest_change_link; eauto. }
+  clear Hh.
+  destruct k; [| |reflexivity]; cbn [apply_map apply_map_sent].
+  - destruct (alookup p D) as [o|].
+    + destruct (st_is_dir st && st_is_dir (de_stat o)); [reflexivity|]. cbv zeta.
+      destruct (is_hardlink st) eqn:Ehl; [|reflexivity].
+      destruct (alookup (st_linkname st) D) as [t|] eqn:Et; [|reflexivity].
+      rewrite (Hl ltac:(discriminate) eq_refl t eq_refl). reflexivity.
+    + destruct (is_hardlink st) eqn:Ehl; [|reflexivity].
+      destruct (alookup (st_linkname st) D) as [t|] eqn:Et; [|reflexivity].
+      rewrite (Hl ltac:(discriminate) eq_refl t eq_refl). reflexivity.
+  - destruct (alookup p D) as [o|]; [|reflexivity].
+    destruct (st_is_dir st && st_is_dir (de_stat o)); [reflexivity|]. cbv zeta.
+    destruct (is_hardlink st) eqn:Ehl; [|reflexivity].
+    destruct (alookup (st_linkname st) D) as [t|] eqn:Et; [|reflexivity].
+    rewrite (Hl ltac:(discriminate) eq_refl t eq_refl). reflexivity.
+Qed.
+
+Lemma replay_step_sim_sent D next c D' next' :
+  apply_map_sent D next c = Some (D', next') -> replay_step (nview D) (notif_of c) = nview D'.
 Proof.
   destruct c as [[k p] [st|]].
   2:{ destruct k; simpl; try discriminate. intros E. inversion E; subst.
       rewrite !nview_is_map. apply aremove_if_map_val. }
   assert (Hdel : k = KDelete ->
-           apply_map src D next (k, p, Some st) = Some (D', next') ->
+           apply_map_sent D next (k, p, Some st) = Some (D', next') ->
            replay_step (nview D) (notif_of (k, p, Some st)) = nview D').
   { intros -> E. simpl in E. inversion E; subst. simpl. rewrite !nview_is_map. apply aremove_if_map_val. }
   (* the add / modify body, common to both kinds *)
@@ -186,10 +311,18 @@ Proof.
   - apply Hdel. reflexivity.
 Qed.
 
+(* one replay step on the consumer's view simulates one honest HandleChange *)
+Theorem replay_step_sim D next c D' next' :
+  apply_map src D next c = Some (D', next') -> honest_change D c = true ->
+  replay_step (nview D) (notif_of c) = nview D'.
+Proof.
+  intros E Hh. rewrite (apply_map_honest _ _ _ Hh) in E. eapply replay_step_sim_sent; eauto.
+Qed.
+
 Lemma apply_all_spec : forall cs D next D' next' done e,
   apply_all src cs D next = (D', next', done, e) ->
   (exists rest, cs = done ++ rest /\ (e = false -> rest = [])) /\
-  replay (map notif_of done) (nview D) = nview D'.
+  (honest_run src cs D next = true -> replay (map notif_of done) (nview D) = nview D').
 Proof.
   induction cs as [|c cs IH]; intros D next D' next' done e E; simpl in E.
   - inversion E; subst. split; [exists []; auto|reflexivity].
@@ -197,7 +330,9 @@ Proof.
     + destruct (apply_all src cs D1 n1) as [[[D2 n2] dn] e2] eqn:Er. inversion E; subst.
       destruct (IH _ _ _ _ _ _ Er) as [(rest & -> & Hrest) Hrep]. split.
       * exists rest. split; auto.
-      * simpl. unfold replay in *. simpl. rewrite (replay_step_sim _ _ _ _ _ Ea). exact Hrep.
+      * intros Hh. unfold honest_run in Hh. cbn [honest_run_by] in Hh. rewrite Ea in Hh.
+        apply andb_true_iff in Hh. destruct Hh as [Hh1 Hh2].
+        simpl. unfold replay in *. simpl. rewrite (replay_step_sim _ _ _ _ _ Ea Hh1). exact (Hrep Hh2).
     + inversion E; subst. split; [exists (c :: cs); split; [reflexivity|discriminate]|reflexivity].
 Qed.
 
